@@ -10,7 +10,7 @@ def isLowerHex (s : String) : Bool :=
   s.toList.all fun c => ('0' ≤ c && c ≤ '9') || ('a' ≤ c && c ≤ 'f')
 
 def parseBytes (s : String) : Option Bytes :=
-  if !isLowerHex s then none else (parseHex (if s = "" then "-" else s)).map (·.map UInt8.toNat)
+  if !isLowerHex s then none else (parseHex (if s = "" then "-" else s)).map (·.map fun b => Cell.byte b.toNat)
 
 def parseScalar (s : String) : Option Nat :=
   if s = "-" then some 0
@@ -34,7 +34,7 @@ def parsePlain (s : String) : Option Bytes :=
     | [n, seed] => do
       let n ← small n (2 ^ 21)
       let seed ← small seed 255
-      pure ((List.range n).map fun i => (seed + 131 * i + 7 * (i / 256)) % 256)
+      pure ((List.range n).map fun i => Cell.byte ((seed + 131 * i + 7 * (i / 256)) % 256))
     | _ => none
   | _ => none
 
@@ -67,7 +67,7 @@ def parseCase (line : String) : Option (Case × List Mod) :=
 
 def tf (b : Bool) : String := if b then "t" else "f"
 
-def showBytes (b : Bytes) : String := showHex (b.map UInt8.ofNat)
+def showBytes (b : Bytes) : String := showHex (b.map fun c => UInt8.ofNat c.toNat)
 
 def model (line : String) : String :=
   match parseCase line with
